@@ -550,7 +550,7 @@ pub fn run(ctx: &RunCtx) -> i32 {
         for _ in 0..per {
             let vhost = g.chance(1, 2);
             let query_mode = g.chance(1, 2);
-            let ak = if g.chance(3, 4) { AK } else { AK2 };
+            let ak = crate::monitor::c05::pick_ak(&mut g);
             let mut req = gen_unsigned(&mut g, vhost);
             let mode = if query_mode { "query" } else { "header" };
             if query_mode {
